@@ -11,6 +11,20 @@ type ReturnResult struct {
 	Result Object
 }
 
+// NonLocalExit is implemented by the values that carry a non-local exit
+// (return-from, return, go) to the form that handles it. A form that
+// evaluates subforms must hand such a value on instead of using it.
+type NonLocalExit interface {
+	Object
+
+	// IsNonLocalExit is a marker only.
+	IsNonLocalExit()
+}
+
+// IsNonLocalExit marks the ReturnResult as a NonLocalExit.
+func (rr *ReturnResult) IsNonLocalExit() {
+}
+
 // String returns a string representation of the object.
 func (rr *ReturnResult) String() string {
 	return string(rr.Append(nil))
